@@ -18,3 +18,9 @@ mod c19_nav;
 mod c03_align;
 #[cfg(any(kani, test))]
 mod c01_search;
+#[cfg(any(kani, test))]
+mod c03_terminal;
+#[cfg(any(kani, test))]
+mod c04_ops;
+#[cfg(any(kani, test))]
+mod c02_cut;
